@@ -69,6 +69,15 @@ func loadKnown() []knownFinding {
 	return out
 }
 
+func hasFaultFeature(fs []string) bool {
+	for _, f := range fs {
+		if f == "fault" || strings.HasPrefix(f, "fault:") {
+			return true
+		}
+	}
+	return false
+}
+
 func subset(need, have []string) bool {
 	set := map[string]bool{}
 	for _, h := range have {
@@ -268,8 +277,8 @@ func cmdCheck(args []string) int {
 			return 2
 		}
 	}
-
 	known := loadKnown()
+
 	agg := struct {
 		States, Transitions, Replays, Steps, Quiescent, MaxDepth int
 		Evals, Distinct                                          int
@@ -282,6 +291,7 @@ func cmdCheck(args []string) int {
 		PerUnit                                                  []map[string]interface{}
 	}{Outcomes: map[string]bool{}, Counters: map[string]int{}, Kinds: map[string]int{}, Exhaustive: true}
 
+	printedKnownEarly := map[string]bool{}
 	var deciding, cross []mc.Found
 	var knownHits []string
 	nondet := ""
@@ -338,6 +348,22 @@ func cmdCheck(args []string) int {
 		for _, f := range r.Found {
 			if f.Scenario == "" {
 				f.Scenario = units[i].id()
+			}
+			// C20 also owns every safety monitor of the other properties when it fires on a
+			// history with injected faults ("none of the safety guarantees is violated along the way").
+			if prop == "C20" && f.Property != "C20" && hasFaultFeature(f.Features) {
+				if k := matchKnown(known, f); k != nil {
+					id := "via " + k.Property + "/" + k.Monitor + "|" + strings.Join(k.Requires, ",")
+					if !printedKnownEarly[id] {
+						printedKnownEarly[id] = true
+						line := fmt.Sprintf("KNOWN-FINDING: property=C20 (safety monitor %s/%s under faults) %s [%s]", k.Property, k.Monitor, k.What, strings.Join(k.Requires, ","))
+						fmt.Println(line)
+						knownHits = append(knownHits, line)
+					}
+					continue
+				}
+				f.Monitor = f.Property + "/" + f.Monitor
+				f.Property = "C20"
 			}
 			if f.Property == prop || os.Getenv("VERIF_ALL") != "" {
 				deciding = append(deciding, f)
